@@ -9,6 +9,7 @@ mod geom;
 mod jsonfmt;
 mod locks;
 mod sched;
+mod raygeom;
 mod session;
 mod solar;
 mod util;
@@ -67,6 +68,7 @@ fn main() {
         "uvalue" => uvalue::main_uvalue(&args),
         "classify" => classify::main_classify(&args),
         "solar" => solar::main_solar(&args),
+        "raygeom" => raygeom::main_raygeom(&args),
         "jsonfmt" => jsonfmt::main_jsonfmt(&args),
         "bdlparse" => bdlparse::main_bdlparse(&args),
         "faults" => faults::main_faults(&args),
